@@ -6,9 +6,8 @@ All theorems quantify over every handler behaviour (any `List Op`: header edits,
 in pieces, Flush, panic), every ErrFunc / ErrorEncoder behaviour (`errOps`, any op lists), every verdict function
 of response validation, strict and non-strict, both transports, and — section "histories" — every sequence of
 requests through one middleware instance.
-Hypotheses that occur: `ValidCodes` (the handler's own WriteHeader codes are ones net/http accepts), `NoPanic`
-where a statement is about a delivered response, and the exclusion class `informational` of the open finding
-F-C14-2 (real server + a 1xx WriteHeader) in the `_partial` theorems.
+Hypotheses that occur: `ValidCodes` (the handler's own WriteHeader codes are ones net/http accepts) and `NoPanic`
+where a statement is about a delivered response. Finding F-C14-2 (informational codes) is repaired: no exclusion.
 -/
 import KinModel.Middleware
 import KinModel.MiddlewareSrc
@@ -46,20 +45,17 @@ theorem strict_records (c : Client) (ops : List Op) :
     (Strict.run { client := c } ops).headerWritten = (wroteStatus ops).isSome := by
   rw [strict_run_eq]; simp
 
-/-- **strict_valid_response_exact** (partial: outside the class `informational` of finding F-C14-2; the full
-statement — the same without `hx` — is refuted by `informational_witness_strict`). After flushBodyContents the
-client holds exactly the status the handler wrote (200 when it never called WriteHeader/Write — finding #16 is
-repaired: no WriteHeader(0)) and exactly the bytes it wrote, and the client's writer did not panic. -/
-theorem strict_valid_response_exact_partial (server : Bool) (ops : List Op) (hv : ValidCodes ops) (hn : NoPanic ops)
-    (hx : informational server ops = false) :
+/-- **strict_valid_response_exact.** After flushBodyContents the client holds exactly the status the handler
+wrote (200 when it never called WriteHeader/Write with a final code; informational codes fix nothing — finding
+F-C14-2 is repaired) and exactly the bytes it wrote, and the client's writer did not panic. Both transports. -/
+theorem strict_valid_response_exact (server : Bool) (ops : List Op) (hv : ValidCodes ops) (hn : NoPanic ops) :
     (Strict.run { client := Client.init server } ops).flushOut.seen = ⟨(handlerStatus server ops).getD 200, written ops⟩ ∧
     (Strict.run { client := Client.init server } ops).flushOut.panicked = false := by
   rw [strict_run_eq]
   obtain ⟨⟨h0, h1, _, h2, h3⟩, _, _⟩ := core_foldl_hdrStep (Client.init server) ops hn
-  have hst : handlerStatus server ops = wroteStatus ops := firstStatus_noinfo server false ops hx
+  have hst : handlerStatus server ops = wroteStatus ops := rfl
   rw [hst]
   generalize hc : ops.foldl hdrStep (Client.init server) = c at *
-  have hsv : c.server = server := h0
   have hs : c.status = none := h1
   have hb : c.body = [] := h2
   have hp : c.panicked = false := h3
@@ -67,58 +63,55 @@ theorem strict_valid_response_exact_partial (server : Bool) (ops : List Op) (hv 
   | none =>
     simp [Strict.flushOut, Client.write, Client.writeHeader, Client.seen, hs, hb, hp, validCode_200, isInfo_200]
   | some n =>
-    have hn' : validCode n = true := firstStatus_valid false false ops hv n hw
-    have hni : (server && isInfo n) = false := wroteStatus_notInfo server ops n hx hw
-    simp [Strict.flushOut, Client.write, Client.writeHeader, Client.seen, hs, hb, hp, hn', hsv, hni]
+    have hn' : validCode n = true := firstStatus_valid true false ops hv n hw
+    have hni : isInfo n = false := wroteStatus_notInfo ops n hw
+    simp [Strict.flushOut, Client.write, Client.writeHeader, Client.seen, hs, hb, hp, hn', hni]
 
 /-- In strict mode the header map is snapshotted only at flush time: every header edit of the handler — also
 those made after its WriteHeader/Write — is part of what the client receives. -/
-theorem strict_headers_delivered_partial (server : Bool) (ops : List Op) (hv : ValidCodes ops) (hn : NoPanic ops)
-    (hx : informational server ops = false) :
+theorem strict_headers_delivered (server : Bool) (ops : List Op) (hv : ValidCodes ops) (hn : NoPanic ops) :
     (Strict.run { client := Client.init server } ops).flushOut.sent = finalHdr ops := by
   rw [strict_run_eq]
-  obtain ⟨⟨h0, h1, _, _, h3⟩, _, _⟩ := core_foldl_hdrStep (Client.init server) ops hn
+  obtain ⟨⟨_, h1, _, _, h3⟩, _, _⟩ := core_foldl_hdrStep (Client.init server) ops hn
   have hh : (ops.foldl hdrStep (Client.init server)).hdr = finalHdr ops := by
     unfold finalHdr
     exact hdr_foldl_hdrStep_indep (Client.init server) {} ops rfl rfl
   rw [← hh]
   generalize ops.foldl hdrStep (Client.init server) = c at *
-  have hsv : c.server = server := h0
   have hs : c.status = none := h1
   have hp : c.panicked = false := h3
   cases hw : wroteStatus ops with
   | none => simp [Strict.flushOut, Client.write, Client.writeHeader, hs, hp, validCode_200, isInfo_200]
   | some n =>
-    have hn' : validCode n = true := firstStatus_valid false false ops hv n hw
-    have hni : (server && isInfo n) = false := wroteStatus_notInfo server ops n hx hw
-    simp [Strict.flushOut, Client.write, Client.writeHeader, hs, hp, hn', hsv, hni]
+    have hn' : validCode n = true := firstStatus_valid true false ops hv n hw
+    have hni : isInfo n = false := wroteStatus_notInfo ops n hw
+    simp [Strict.flushOut, Client.write, Client.writeHeader, hs, hp, hn', hni]
 
 /-- For handlers that never call Flush the strict path delivers what the raw writer would have received
 (the strict wrapper is not an http.Flusher, so the handler's `w.(http.Flusher)` assertion fails). -/
 theorem strict_exact_vs_direct_partial (server : Bool) (ops : List Op) (hv : ValidCodes ops) (hn : NoPanic ops)
-    (hx : informational server ops = false) (hf : ∀ op ∈ ops, op ≠ Op.flush) :
+    (hrec : informational (!server) ops = false) (hf : ∀ op ∈ ops, op ≠ Op.flush) :
     (Strict.run { client := Client.init server } ops).flushOut.seen = (runDirect (Client.init server) ops).seen := by
-  rw [(strict_valid_response_exact_partial server ops hv hn hx).1]
+  rw [(strict_valid_response_exact server ops hv hn).1]
   obtain ⟨h1, h2⟩ := runDirect_status_body (Client.init server) ops rfl hv hn
   have h1' : (runDirect (Client.init server) ops).status = firstStatus server true ops := by
     simpa [Client.init] using h1
   have h2' : (runDirect (Client.init server) ops).body = written ops := by simpa [Client.init] using h2
-  simp [Client.seen, h1', h2', firstStatus_noflush server ops hf, handlerStatus]
+  have hst : firstStatus server false ops = firstStatus true false ops := by
+    cases server with
+    | true => rfl
+    | false => exact (firstStatus_noinfo true false ops hrec).symm
+  simp [Client.seen, h1', h2', firstStatus_noflush server ops hf, handlerStatus, hst]
 
 /-! ## warn wrapper -/
 
-/-- **warn_is_transparent** (partial: outside F-C14-2; refuted without `hx` by `informational_witness_warn`).
-The warn wrapper refines the raw writer: after any sequence of handler calls (including invalid status codes,
-repeated WriteHeader, Flush before the first write, a panic) the client's writer is in exactly the state a direct
-run would have left it in — status, body, header snapshot, flush flag, panic. -/
-theorem warn_is_transparent_partial (server : Bool) (ops : List Op) (hx : informational server ops = false) :
+/-- **warn_is_transparent.** The warn wrapper refines the raw writer: after any sequence of handler calls
+(including informational and invalid status codes, repeated WriteHeader, Flush before the first write, a panic) the
+client's writer is in exactly the state a direct run would have left it in — status, informational responses, body,
+header snapshot, flush flag, panic. Both transports, full strength (finding F-C14-2 is repaired). -/
+theorem warn_is_transparent (server : Bool) (ops : List Op) :
     (Warn.run { client := Client.init server } ops).client = runDirect (Client.init server) ops :=
-  (warn_run { client := Client.init server } ops (by simp [WInv]) hx).1
-
-/-- on a ResponseRecorder (no informational responses) the refinement holds for every handler -/
-theorem warn_is_transparent_recorder (ops : List Op) :
-    (Warn.run {} ops).client = runDirect {} ops :=
-  warn_is_transparent_partial false ops rfl
+  (warn_run { client := Client.init server } ops (by simp [WInv])).1
 
 /-- What the warn wrapper hands to response validation: the code of the first WriteHeader (0 if none) and
 all bytes the handler wrote. -/
@@ -129,10 +122,9 @@ theorem warn_records (c : Client) (ops : List Op) :
 
 /-- In non-strict mode the bytes handed to response validation are exactly the bytes the client received
 (handlers that complete). -/
-theorem warn_validates_delivered_body (server : Bool) (ops : List Op) (hv : ValidCodes ops) (hn : NoPanic ops)
-    (hx : informational server ops = false) :
+theorem warn_validates_delivered_body (server : Bool) (ops : List Op) (hv : ValidCodes ops) (hn : NoPanic ops) :
     (Warn.run { client := Client.init server } ops).buf = (Warn.run { client := Client.init server } ops).client.body := by
-  rw [warn_is_transparent_partial server ops hx, (warn_records _ ops).2,
+  rw [warn_is_transparent server ops, (warn_records _ ops).2,
       (runDirect_status_body (Client.init server) ops rfl hv hn).2]
   simp [Client.init]
 
@@ -247,9 +239,9 @@ theorem strict_invalid_response_replaced (cfg : Cfg) (env : Env) (ops : List Op)
   exact ⟨hrun.seen, hrun.2.2.1, hrun.2.2.2.2⟩
 
 /-- Strict mode, response validation passes: the client gets the handler's status and bytes, ErrFunc is not
-called, nothing is logged (partial: outside F-C14-2). -/
-theorem strict_valid_response_delivered_partial (cfg : Cfg) (env : Env) (ops : List Op) (hv : ValidCodes ops)
-    (hn : NoPanic ops) (hx : informational env.server ops = false)
+called, nothing is logged. -/
+theorem strict_valid_response_delivered (cfg : Cfg) (env : Env) (ops : List Op) (hv : ValidCodes ops)
+    (hn : NoPanic ops)
     (hs : cfg.strict = true) (hr : env.routeFound = true) (hq : env.reqOK = true)
     (hok : env.respOK (validatedStatus (Strict.run { client := Client.init env.server } ops).status)
               (Strict.run { client := Client.init env.server } ops).client.hdr
@@ -261,7 +253,7 @@ theorem strict_valid_response_delivered_partial (cfg : Cfg) (env : Env) (ops : L
     rw [strict_client_during_handler]; exact (core_foldl_hdrStep _ ops hn).1.2.2.2.2
   simp only [middleware, hs, hr, hq, hok, hp]
   simp
-  exact strict_valid_response_exact_partial env.server ops hv hn hx
+  exact strict_valid_response_exact env.server ops hv hn
 
 /-- **strict_handler_panic_leaks_nothing.** Strict mode, the handler panics somewhere (after any calls): no
 status, no informational response, no body byte and no header snapshot of its unvalidated response is on the
@@ -279,30 +271,27 @@ theorem strict_handler_panic_leaks_nothing (cfg : Cfg) (env : Env) (ops : List O
   simp only [Client.init] at h1 h2 h3 h4 h5 hp
   simp [Client.seen, Client.init, h1, h2, h3, h4, h5, hp]
 
-/-- **nonstrict_passes_through** (partial: outside F-C14-2). Non-strict mode: whatever response validation says,
+/-- **nonstrict_passes_through.** Non-strict mode: whatever response validation says,
 the client's writer ends in exactly the state the handler would have produced on it directly — also when the
 handler panics half-way —, and ErrFunc is never called. -/
-theorem nonstrict_passes_through_partial (cfg : Cfg) (env : Env) (ops : List Op)
-    (hx : informational env.server ops = false)
+theorem nonstrict_passes_through (cfg : Cfg) (env : Env) (ops : List Op)
     (hs : cfg.strict = false) (hr : env.routeFound = true) (hq : env.reqOK = true) :
     (middleware cfg env ops).client = runDirect (Client.init env.server) ops ∧ (middleware cfg env ops).errCalls = [] := by
   simp only [middleware, hs, hr, hq]
   simp
   repeat' split
-  all_goals simp [warn_is_transparent_partial env.server ops hx]
+  all_goals simp [warn_is_transparent env.server ops]
 
 /-- executable oracle = declarative `Meets` -/
 theorem meetsB_iff (o : Outcome) (s : SpecOut) : meetsB o s = true ↔ Meets o s := by
   unfold meetsB Meets
   cases s.full <;> simp [and_assoc]
 
-/-- **middleware_meets_spec** (partial). The model of the middleware meets the specification of the property for
-every configuration, environment, transport and handler with acceptable status codes — panicking handlers
-included — outside the exclusion class `informational` of the open finding F-C14-2.
-Full statement (refuted inside the class by `informational_witness_strict` / `_warn`):
-  ∀ cfg env ops, ValidCodes ops → Meets (middleware cfg env ops) (spec cfg env ops). -/
-theorem middleware_meets_spec_partial (cfg : Cfg) (env : Env) (ops : List Op) (hv : ValidCodes ops)
-    (hx : informational env.server ops = false) :
+/-- **middleware_meets_spec.** The model of the middleware meets the specification of the property for every
+configuration, environment, transport and handler with acceptable status codes — panicking handlers and
+informational responses included (full strength: the former exclusion `informational`, finding F-C14-2, is
+repaired). -/
+theorem middleware_meets_spec (cfg : Cfg) (env : Env) (ops : List Op) (hv : ValidCodes ops) :
     Meets (middleware cfg env ops) (spec cfg env ops) := by
   cases hr : env.routeFound with
   | false => simp [Meets, middleware, spec, hr]
@@ -312,7 +301,7 @@ theorem middleware_meets_spec_partial (cfg : Cfg) (env : Env) (ops : List Op) (h
   | true =>
   cases hs : cfg.strict with
   | false =>
-    obtain ⟨h1, h2⟩ := nonstrict_passes_through_partial cfg env ops hx hs hr hq
+    obtain ⟨h1, h2⟩ := nonstrict_passes_through cfg env ops hs hr hq
     have h3 := (handler_iff_route_and_valid cfg env ops).mpr ⟨hr, hq⟩
     simp [Meets, spec, hr, hq, hs, h1, h2, h3]
   | true =>
@@ -327,7 +316,7 @@ theorem middleware_meets_spec_partial (cfg : Cfg) (env : Env) (ops : List Op) (h
     have hh : (Strict.run { client := Client.init env.server } ops).client.hdr = finalHdr ops := by
       rw [strict_client_during_handler]
       exact hdr_foldl_hdrStep_indep (Client.init env.server) {} ops rfl rfl
-    have hst : handlerStatus env.server ops = wroteStatus ops := firstStatus_noinfo env.server false ops hx
+    have hst : handlerStatus env.server ops = wroteStatus ops := rfl
     -- the verdict the middleware obtains is the verdict on the response the handler wrote
     have hverdict : env.respOK (validatedStatus (Strict.run { client := Client.init env.server } ops).status)
         (Strict.run { client := Client.init env.server } ops).client.hdr
@@ -337,45 +326,42 @@ theorem middleware_meets_spec_partial (cfg : Cfg) (env : Env) (ops : List Op) (h
       rw [hst]
       cases hw : wroteStatus ops with
       | some n =>
-        have hn' : validCode n = true := firstStatus_valid false false ops hv n hw
+        have hn' : validCode n = true := firstStatus_valid true false ops hv n hw
         have hn0 : n ≠ 0 := by intro h0; rw [h0] at hn'; exact absurd hn' (by decide)
         simp [validatedStatus, hn0]
       | none => simp [validatedStatus]
     cases hval : respValid env ops with
     | true =>
       obtain ⟨d1, d4, d2, _⟩ :=
-        strict_valid_response_delivered_partial cfg env ops hv hn hx hs hr hq (hverdict.trans hval)
+        strict_valid_response_delivered cfg env ops hv hn hs hr hq (hverdict.trans hval)
       simp [Meets, spec, hr, hq, hs, hpan, hval, h3, d1, d2, d4]
     | false =>
       obtain ⟨d1, _, d2, d3, _⟩ := strict_invalid_response_replaced cfg env ops hn hs hr hq (hverdict.trans hval)
       simp [Meets, spec, hr, hq, hs, hpan, hval, h3, d1, d2, d3]
 
-/-- on a ResponseRecorder the statement holds at full strength (`ValidCodes` only) -/
-theorem middleware_meets_spec_recorder (cfg : Cfg) (env : Env) (ops : List Op) (hv : ValidCodes ops)
-    (hrec : env.server = false) : Meets (middleware cfg env ops) (spec cfg env ops) :=
-  middleware_meets_spec_partial cfg env ops hv (by simp [informational, hrec])
-
 /-- The verdict logged in non-strict mode is the verdict on the response the client received, whenever the
-handler fixed its status itself (no Flush before the first WriteHeader/Write). -/
+handler fixed its status itself (no Flush before the first WriteHeader/Write) — on a ResponseRecorder only for
+handlers without informational codes (the recorder takes a 1xx for the final status; net/http does not). -/
 theorem warn_verdict_is_on_delivered_response (server : Bool) (ops : List Op) (hv : ValidCodes ops) (hn : NoPanic ops)
-    (hx : informational server ops = false)
+    (hrec : informational (!server) ops = false)
     (hf : firstStatus server true ops = firstStatus server false ops) :
     validatedStatus (Warn.run { client := Client.init server } ops).status =
       (runDirect (Client.init server) ops).seen.status := by
   rw [(warn_records _ ops).1, Client.seen, (runDirect_status_body (Client.init server) ops rfl hv hn).1]
   simp only [Client.init, hf]
-  rw [firstStatus_noinfo server false ops hx]
+  have hst : firstStatus server false ops = wroteStatus ops := by
+    cases server with
+    | true => rfl
+    | false => exact (firstStatus_noinfo true false ops hrec).symm
+  rw [hst]
   cases hw : wroteStatus ops with
   | some n =>
-    have hn' : validCode n = true := firstStatus_valid false false ops hv n hw
+    have hn' : validCode n = true := firstStatus_valid true false ops hv n hw
     have hn0 : n ≠ 0 := by intro h0; rw [h0] at hn'; exact absurd hn' (by decide)
-    unfold wroteStatus at hw
-    simp [validatedStatus, hn0, hw]
-  | none =>
-    unfold wroteStatus at hw
-    simp [validatedStatus, hw]
+    simp [validatedStatus, hn0]
+  | none => simp [validatedStatus]
 
-/-! ## open finding F-C14-2: informational (1xx) responses behind a real server -/
+/-! ## regression of the repaired finding F-C14-2 (informational responses behind a real server) -/
 
 /-- a real server, the documented response for 404 wants the body "1", everything else is undocumented and
 allowed; ErrFunc is the default -/
@@ -384,36 +370,16 @@ def infoEnv : Env := { routeFound := true, reqOK := true, server := true,
 /-- Early Hints, then the final answer 404 "1" -/
 def infoOps : List Op := [.writeHeader 103, .writeHeader 404, .write ['1']]
 
-/-- **Witness (strict).** The handler's response (404, "1") is valid; net/http alone would deliver 103 then
-404 "1". The strict wrapper takes 103 for the status: it validates a 103 response and delivers 103 then **200**
-"1" — a valid response does not reach the client with the status the handler wrote. Inside the class
-`informational` the model differs from the spec. -/
-theorem informational_witness_strict :
-    informational infoEnv.server infoOps = true ∧
-    (runDirect (Client.init true) infoOps).seen = ⟨404, ['1']⟩ ∧
-    (spec witnessCfg0 infoEnv infoOps).seen = ⟨404, ['1']⟩ ∧
-    (middleware witnessCfg0 infoEnv infoOps).client.seen = ⟨200, ['1']⟩ ∧
-    meetsB (middleware witnessCfg0 infoEnv infoOps) (spec witnessCfg0 infoEnv infoOps) = false := by
-  decide
-
-/-- **Witness (non-strict).** The warn wrapper forwards the *recorded* status on every WriteHeader call: the
-client receives 103 twice and then an implicit 200 instead of the handler's 404 — the response does not pass
-through unchanged. -/
-theorem informational_witness_warn :
+/-- **Regression (F-C14-2, repaired).** Strict mode validates and delivers (404, "1") — the hint is dropped, no
+informational response is on the wire before validation; non-strict mode forwards 103 once and then 404: exactly
+what net/http alone would have sent. Model = spec on the former witness. -/
+theorem informational_repaired :
+    (middleware witnessCfg0 infoEnv infoOps).client.seen = ⟨404, ['1']⟩ ∧
+    (middleware witnessCfg0 infoEnv infoOps).client.info = [] ∧
+    meetsB (middleware witnessCfg0 infoEnv infoOps) (spec witnessCfg0 infoEnv infoOps) = true ∧
+    (middleware { witnessCfg0 with strict := false } infoEnv infoOps).client = runDirect (Client.init true) infoOps ∧
     (runDirect (Client.init true) infoOps).info = [103] ∧
-    (middleware { witnessCfg0 with strict := false } infoEnv infoOps).client.info = [103, 103] ∧
-    (middleware { witnessCfg0 with strict := false } infoEnv infoOps).client.seen = ⟨200, ['1']⟩ ∧
-    meetsB (middleware { witnessCfg0 with strict := false } infoEnv infoOps)
-           (spec { witnessCfg0 with strict := false } infoEnv infoOps) = false := by
-  decide
-
-/-- the same handler on a ResponseRecorder (which has no informational responses) is outside the class, and
-model = spec there; a real server with a handler that sends no 1xx is outside the class as well -/
-example : informational false infoOps = false ∧
-    meetsB (middleware witnessCfg0 { infoEnv with server := false } infoOps)
-           (spec witnessCfg0 { infoEnv with server := false } infoOps) = true ∧
-    informational true [.writeHeader 404, .write ['1']] = false ∧
-    (middleware witnessCfg0 infoEnv [.writeHeader 404, .write ['1']]).client.seen = ⟨404, ['1']⟩ := by
+    (runDirect (Client.init true) infoOps).seen = ⟨404, ['1']⟩ := by
   decide
 
 /-! ## histories: one middleware instance serving a sequence of requests -/
@@ -436,29 +402,29 @@ theorem nth_outcome_depends_on_nth_request (cfg : Cfg) (pre1 pre2 post1 post2 : 
   rw [serveSeq_pointwise, serveSeq_pointwise]
   simp [hl]
 
-/-- **every_request_of_a_history_meets_spec** (partial: outside F-C14-2). For every sequence of requests
+/-- **every_request_of_a_history_meets_spec.** For every sequence of requests
 (handlers with acceptable status codes, panicking ones included) each client receives what the property
 prescribes for its own request: handler run iff route and request are fine, strict replacement / exact delivery,
 non-strict pass-through — also right after a request whose response was rejected or whose handler panicked. -/
-theorem every_request_of_a_history_meets_spec_partial (cfg : Cfg) (reqs : List Req)
-    (hv : ∀ r ∈ reqs, ValidCodes r.ops) (hx : ∀ r ∈ reqs, informational r.env.server r.ops = false) :
+theorem every_request_of_a_history_meets_spec (cfg : Cfg) (reqs : List Req)
+    (hv : ∀ r ∈ reqs, ValidCodes r.ops) :
     MeetsSeq cfg reqs (serveSeq cfg reqs) := by
   rw [serveSeq_pointwise]
   induction reqs with
   | nil => trivial
   | cons r rs ih =>
-    exact ⟨middleware_meets_spec_partial cfg r.env r.ops (hv r (by simp)) (hx r (by simp)),
-           ih (fun x hm => hv x (List.mem_cons_of_mem _ hm)) (fun x hm => hx x (List.mem_cons_of_mem _ hm))⟩
+    exact ⟨middleware_meets_spec cfg r.env r.ops (hv r (by simp)),
+           ih (fun x hm => hv x (List.mem_cons_of_mem _ hm))⟩
 
 /-- a rejected response (or a panic) leaves nothing behind: the request that follows it is delivered exactly -/
 theorem valid_after_rejected_is_delivered (cfg : Cfg) (bad good : Req) (hs : cfg.strict = true)
-    (hg : ValidCodes good.ops) (hn : NoPanic good.ops) (hx : informational good.env.server good.ops = false)
+    (hg : ValidCodes good.ops) (hn : NoPanic good.ops)
     (hr : good.env.routeFound = true) (hq : good.env.reqOK = true)
     (hok : respValid good.env good.ops = true) :
     ∃ o1 o2, serveSeq cfg [bad, good] = [o1, o2] ∧
       o2.client.seen = ⟨(handlerStatus good.env.server good.ops).getD 200, written good.ops⟩ ∧ o2.errCalls = [] := by
   refine ⟨_, _, by rw [serveSeq_pointwise]; rfl, ?_⟩
-  have h := middleware_meets_spec_partial cfg good.env good.ops hg hx
+  have h := middleware_meets_spec cfg good.env good.ops hg
   simp only [Meets, spec, hr, hq, hs, hok, (panics_false_iff good.ops).mpr hn] at h
   exact ⟨by simpa using h.2.1, by simpa using h.2.2.1⟩
 
@@ -586,19 +552,19 @@ theorem strict_iff_last_strict_option {ω : Type} (z : ω) (os : List (VOpt ω))
 /-! ## non-vacuity -/
 
 /-- a non-trivial handler (headers, Write before WriteHeader, a second WriteHeader, pieces, Flush) satisfies
-the hypotheses of `middleware_meets_spec_partial` in strict mode, behind a real server, with a verdict function that
+the hypotheses of `middleware_meets_spec` in strict mode, behind a real server, with a verdict function that
 depends on status, headers and body; both verdicts occur -/
 example :
     let ops : List Op := [.setHdr "Content-Type" "application/json", .write ['1'], .flush, .writeHeader 404, .write ['2']]
     let env : Env := { routeFound := true, reqOK := true, server := true,
                        respOK := fun st h b => st == 200 && hget h "Content-Type" == some "application/json" && b == ['1', '2'] }
-    ValidCodes ops ∧ informational env.server ops = false ∧
+    ValidCodes ops ∧
     (middleware witnessCfg env ops).client.seen = ⟨200, ['1', '2']⟩ ∧
     (middleware witnessCfg { env with respOK := fun _ _ _ => false } ops).client.seen = ⟨500, "server error\n".toList⟩ := by
-  refine ⟨?_, by decide, by decide, by decide⟩
+  refine ⟨?_, by decide, by decide⟩
   rw [← validCodesB_iff]; decide
 
-/-- the hypotheses of `strict_invalid_response_replaced` / `strict_valid_response_delivered_partial` are satisfiable,
+/-- the hypotheses of `strict_invalid_response_replaced` / `strict_valid_response_delivered` are satisfiable,
 and a handler whose first status is invalid makes the client's writer panic in both modes alike -/
 example : (Strict.run {} [.writeHeader 0, .write ['a']]).flushOut.panicked = true ∧
     (runDirect {} [.writeHeader 0, .write ['a']]).panicked = true ∧
